@@ -417,6 +417,11 @@ func (c09) Run(t *testing.T, tape *core.Tape, rcx *RunCtx) *core.Result {
 			i += n
 		}
 		given = frags
+		if len(parts) > 0 && tape.Chance(6) {
+			// the very same part supplied twice
+			parts = append(parts, parts[tape.Draw(len(parts))])
+			res.Count("probe_same_part_supplied_twice", 1)
+		}
 	}
 	sc.Frags = given
 	sc.Parts = parts
